@@ -474,6 +474,8 @@ func genCrash(prop string, epochsMax int) genFunc {
 	return func(r *rng, tier string, add func(g *G)) {
 		// (two crashes in a row: the directed layouts belong to both properties' generators)
 		genC04Directed(r, tier, add)
+		// (a crash right after a compaction that had to take a small older segment along)
+		genC05SmallOlder(r, tier, add)
 		n := scale(tier, 60, 1500)
 		for i := 0; i < n; i++ {
 			g := newG(r.fork(), fmt.Sprintf("%s/%d", prop, i))
@@ -696,6 +698,14 @@ func genSplitInsideCompaction(r *rng, tier string, prop string, add func(g *G)) 
 		}
 		g.indexShape()
 		g.dump()
+		scan := i%2 == 0
+		if scan {
+			// a scan in progress: its queue holds items of the first bucket chain while the compaction
+			// repoints, and finally removes, the records they were read from
+			g.do("iternew w")
+			g.do("iternext w")
+			g.c.tag("scan_in_progress_across_compaction")
+		}
 		g.do("cpick", "cpick ok")
 		fresh := 0
 		for steps := 0; steps < 3000; steps++ {
@@ -714,6 +724,13 @@ func genSplitInsideCompaction(r *rng, tier string, prop string, add func(g *G)) 
 				}
 				break
 			}
+		}
+		if scan {
+			// ids of removed segments are reused by the next rollover
+			for j := 0; j < 12; j++ {
+				g.put(g.pick(), g.r.bytes(40+g.r.intn(40)))
+			}
+			g.drainIter("w")
 		}
 		g.indexShape()
 		g.checkAll()
@@ -882,11 +899,31 @@ func genC08(r *rng, tier string, add func(g *G)) {
 	for i := 0; i < n; i++ {
 		g := newG(r.fork(), fmt.Sprintf("C08/%d", i))
 		g.dumpEvery = 0
-		g.params([]int{700, 1500, 1 << 20}[g.r.intn(3)], 512, 0.5, false)
+		bigKeys := i%6 == 4
+		if bigKeys {
+			g.params(1<<20, 512, 0.5, false)
+		} else {
+			g.params([]int{700, 1500, 1 << 20}[g.r.intn(3)], 512, 0.5, false)
+		}
 		g.open()
 		g.keys = g.randomKeys(8)
 		g.keys = append(g.keys, []byte{})
 		fill := 3 + g.r.intn(30)
+		if bigKeys {
+			// records whose key is within a few bytes of the limit (6 + key size passes 65535), with an
+			// empty, a one-byte or an ordinary value, in front of ordinary records and the damaged tail
+			g.put(g.pick(), g.r.bytes(g.r.intn(30)))
+			for j := 0; j < 1+g.r.intn(2); j++ {
+				k := g.r.bytes([]int{65529, 65530, 65531, 65533, 65535}[g.r.intn(5)])
+				g.keys = append(g.keys, k)
+				g.put(k, g.r.bytes([]int{0, 1, 2, 40}[g.r.intn(4)]))
+				if g.r.chance(25) {
+					g.del(k)
+				}
+			}
+			g.c.tag("keys_within_6_bytes_of_the_limit")
+			fill = 1 + g.r.intn(6)
+		}
 		if i%5 == 1 {
 			// the record of an empty key with an empty value has an all-zero header
 			g.put(g.pick(), g.r.bytes(g.r.intn(30)))
@@ -1101,6 +1138,38 @@ func genC12(r *rng, tier string, add func(g *G)) {
 		fill := g.r.intn(50)
 		for j := 0; j < fill; j++ {
 			g.randomOp()
+		}
+		if i%6 == 2 {
+			// backup of a database that went through clean restarts in which the FIRST write of a
+			// session rolled the log over (the segment that was current at the last Close is sealed
+			// without having been touched in this session), followed, a restart later, by a small record
+			// for the key whose newest record is in the newest segment. A backup is opened by replaying
+			// the log: which segment is the newest must survive the restarts.
+			for s := 0; s < 2+g.r.intn(2); s++ {
+				for j := g.r.intn(10); j > 0; j-- {
+					g.put(g.pick(), g.r.bytes(g.r.intn(12)))
+				}
+				g.close()
+				g.open()
+				big := g.maxSeg/2 + g.r.intn(g.maxSeg/3)
+				if big > 4000 {
+					big = 4000
+				}
+				bk := g.pick()
+				g.put(bk, g.r.bytes(big))
+				g.close()
+				g.open()
+				if g.r.chance(50) {
+					g.del(bk)
+				} else {
+					g.put(bk, []byte{})
+				}
+				for j := g.r.intn(3); j > 0; j-- {
+					g.put(g.pick(), g.r.bytes(g.r.intn(4)))
+				}
+			}
+			g.dump()
+			g.c.tag("backup_after_clean_restarts_with_rollover_as_first_write")
 		}
 		writer := func() {
 			for g.r.chance(50) {
@@ -1410,6 +1479,44 @@ func genC16(r *rng, tier string, add func(g *G)) {
 			g.do("del "+interp.Hex(long), "del ok")
 			g.get(short)
 			g.c.tag("overlong_key_probes")
+		}
+		// over-long keys that agree with a stored key in all 32 bits of the hash AND in the 16 low bits
+		// of the length (all an index slot records about a key): only the comparison with the key
+		// bytes in the segment tells them apart
+		{
+			kl := []int{4, 8, 16}[g.r.intn(3)]
+			short := mk(kl)
+			g.keys = append(g.keys, short)
+			g.put(short, g.r.bytes(3+g.r.intn(20)))
+			long := append(append([]byte{}, short...), mk(65536)...)
+			fixHash(long, g.seed, g.hash(short))
+			if g.hash(long) == g.hash(short) {
+				g.c.tag("overlong_probes_colliding_in_hash_and_low_length_bits")
+				g.do("get "+interp.Hex(long), "get nil")
+				g.do("getappend "+interp.Hex(long)+" "+interp.Hex([]byte("p")), "getappend nil")
+				g.do("has "+interp.Hex(long), "has 0")
+				g.do("put "+interp.Hex(long)+" 01", "put err keytoolarge")
+				g.do("del "+interp.Hex(long), "del ok")
+				g.get(short)
+			}
+			if maxSeg >= 70000 {
+				// ... and the probe is the stored key followed by the first 64 KiB of the stored value
+				k2 := mk(kl)
+				v2 := mk(65536 + g.r.intn(200))
+				long2 := append(append([]byte{}, k2...), v2[:65536]...)
+				fixHash(long2, g.seed, g.hash(k2))
+				copy(v2[65532:65536], long2[len(long2)-4:])
+				if g.hash(long2) == g.hash(k2) {
+					g.keys = append(g.keys, k2)
+					g.put(k2, v2)
+					g.c.tag("overlong_probe_equal_to_stored_key_plus_value_prefix")
+					g.do("get "+interp.Hex(long2), "get nil")
+					g.do("getappend "+interp.Hex(long2)+" "+interp.Hex([]byte("p")), "getappend nil")
+					g.do("has "+interp.Hex(long2), "has 0")
+					g.do("del "+interp.Hex(long2), "del ok")
+					g.get(k2)
+				}
+			}
 		}
 		g.dump()
 		g.do("dumprecs")
